@@ -714,6 +714,52 @@ Proof.
     rewrite !app_length. lia.
 Qed.
 
+(* ---------- duplicates are rejected at every position, for every key ----------
+   The first-pair test of the Go loop is `i > 0`; the model's [prev] is an
+   option, and [None] (first pair) is distinct from [Some []] (previous key is
+   the empty string): the empty key gets no special treatment. *)
+Lemma chain_adjacent_dup l1 : forall p k l2, ~ chain p (l1 ++ k :: k :: l2).
+Proof.
+  induction l1 as [|x l1 IH]; intros p k l2; cbn [app chain].
+  - intros (_ & Hkk & _). rewrite bytes_ltb_irrefl in Hkk. discriminate.
+  - intros (_ & Hc). exact (IH _ _ _ Hc).
+Qed.
+
+Lemma sortedb_adjacent_dup l1 k l2 : sortedb (l1 ++ k :: k :: l2) = false.
+Proof.
+  destruct (sortedb (l1 ++ k :: k :: l2)) eqn:E; [|reflexivity].
+  apply sortedb_chain in E. exfalso. exact (chain_adjacent_dup _ _ _ _ E).
+Qed.
+
+(* no accepted record has the same key twice in a row — anywhere in the list,
+   for any key (in particular the empty one) *)
+Theorem decode_no_adjacent_dup b r ps1 k v1 v2 ps2 :
+  bytesb b = true -> decode b = EOk r -> r_pairs r <> ps1 ++ (k, v1) :: (k, v2) :: ps2.
+Proof.
+  intros Hb Hd Hp. apply (decode_iff b r Hb) in Hd as (_ & _ & _ & _ & Hs).
+  unfold keys in Hs. rewrite Hp, map_app in Hs. cbn [map fst] in Hs.
+  rewrite sortedb_adjacent_dup in Hs. discriminate.
+Qed.
+
+(* the concrete case of the empty key: ["", ""] first, in the middle, last,
+   and the canonical single "" — by evaluation of the decoder model *)
+Definition empty_key_ok : bool :=
+  let dec ps := Enr.decode (encode_fields [1; 2] 5 ps) in
+  let is_dup (x : eres record) := match x with EErr EDuplicateKey => true | _ => false end in
+  let is_uns (x : eres record) := match x with EErr ENotSorted => true | _ => false end in
+  let is_ok (x : eres record) n := match x with EOk r => lenN (r_pairs r) =? n | _ => false end in
+  is_dup (dec [([], [1]); ([], [2])]) &&
+  is_dup (dec [([], [1]); ([], [1])]) &&
+  is_dup (dec [([], [1]); ([], [2]); ([97], [3])]) &&
+  is_dup (dec [([], [1]); ([], [2]); ([], [3]); ([97], [3])]) &&
+  is_dup (dec [([], [1]); ([97], [2]); ([97], [3])]) &&
+  is_dup (dec [([0], [1]); ([0], [2])]) &&
+  is_uns (dec [([97], [1]); ([], [2])]) &&
+  is_uns (dec [([], [1]); ([97], [2]); ([], [3])]) &&
+  is_ok (dec [([], [1])]) 1 &&
+  is_ok (dec [([], [1]); ([0], [2]); ([97], [3])]) 3 &&
+  negb (sortedb [[]; []]) && sortedb [[]; [0]; [0; 0]; [97]].
+
 (* ---------- a concrete record (non-vacuity) ----------
    The example record of EIP-778 (seq 1, keys id, ip, secp256k1, udp).  With the
    abstract verifier answering true it is accepted, its four keys are sorted,
